@@ -156,9 +156,9 @@ CLAIMED['C04'] = dict(
          'alias, for/else) that the result is sorted by (filename or "", line) and consists of logged errors, each filed under its own unique representation. '
          '(2) Two frame obligations over every function of the pytype package, checked syntactically on every run: no value is picked from / no sequence is '
          'built in the iteration order of an expression that is syntactically a set (order leak) unless the set is a guarded singleton or the site is in the '
-         'committed review list (13 stated assumptions); no function is memoised process-wide (functools.lru_cache/cache). A new leak or memo is a failed, named '
+         'committed review list (13 stated assumptions); no function is memoised process-wide (functools.lru_cache/cache) and no function writes module/class-level state (containers, iterators or counters consumed with next, names rebound through global, class scalars rebound through cls.X) outside the review list (14 stated assumptions). A new leak, memo or piece of process-wide state is a failed, named '
          'obligation. (3) The body of C04 -- byte-identical stub text, error report and pickle under any hash seed, in-process history and loader reuse -- is '
-         'otherwise a whole-pipeline non-interference property that no function-level contract decides; it is covered by a bounded sweep only: 611 programs '
+         'otherwise a whole-pipeline non-interference property that no function-level contract decides; it is covered by a bounded sweep only: several hundred programs '
          '(test snippets + hand-written name-collision/stress programs) analysed in processes that differ in PYTHONHASHSEED, program order and loader reuse.',
     note='Trusted: engine/, z3, A-POS (equal unique representations have equal sort keys), A-LIB (sorted(); dict insertion order; sum of lists), '
          'textual contract of the one-line _sorted_errors; the frame scan sees syntactic sets only (a set reaching an order-sensitive consumer through a parameter, '
